@@ -26,7 +26,14 @@ structure CbDrv where
   pendingAdd : Option (String × Option Nat) := none
 
 /-- the variant is read off the source: `Gen.callbackPutDispatchBlocking` -/
-def cbDrvInit : CbDrv := { cfg := ⟨Gen.callbackWorkerQueue, Gen.callbackPutDispatchBlocking, Gen.callbackAddCloseSendBlocking⟩ }
+def codeCfg : Cfg :=
+  { cap := Gen.callbackWorkerQueue
+    blocking := Gen.callbackPutDispatchBlocking
+    closeBlocking := Gen.callbackAddCloseSendBlocking
+    ends := Gen.callbackOverflowEndsConsumer }
+
+def cbDrvInit : CbDrv := { cfg := codeCfg }
+
 
 def showJob : Job → String
   | .beacon b => toString b.round
@@ -48,16 +55,16 @@ def settleOnce (d : CbDrv) : CbDrv × Bool :=
     | some c, some k =>
       if c.busy then
         match k.credits with
-        | none => match step d.cfg d.st evDone with
+        | none => match stepV d.cfg d.st evDone with
           | some s => ({ d with st := s }, true) | none => acc
         | some 0 => acc
-        | some (n + 1) => match step d.cfg d.st evDone with
+        | some (n + 1) => match stepV d.cfg d.st evDone with
           | some s => ({ d with st := s, cons := d.cons.map fun x => if x.id == id then { x with credits := some n } else x }, true)
           | none => acc
       else
         match c.queue with
         | [] => acc
-        | j :: _ => match step d.cfg d.st evTake with
+        | j :: _ => match stepV d.cfg d.st evTake with
           | some s => ({ d with st := s, cons := d.cons.map fun x => if x.id == id then { x with got := x.got ++ [showJob j] } else x }, true)
           | none => acc
     | _, _ => acc
@@ -68,14 +75,14 @@ def settleOnce (d : CbDrv) : CbDrv × Bool :=
     match d.st.puts with
     | [] => (d, false)
     | p :: _ =>
-      match step d.cfg d.st (if p.rem.isEmpty then .putEnd 0 else .putSend 0) with
+      match stepV d.cfg d.st (if p.rem.isEmpty then .putEnd 0 else .putSend 0) with
       | some s => ({ d with st := s }, true)
       | none => (d, false)
   -- writers
   let (d, ch3) :=
     match d.st.writer with
     | some id =>
-      match step d.cfg d.st .addResume with
+      match stepV d.cfg d.st .addResume with
       | some s =>
         let d := { d with st := s }
         (match d.pendingAdd with
@@ -85,11 +92,11 @@ def settleOnce (d : CbDrv) : CbDrv × Bool :=
     | none =>
       match d.pendingW with
       | some (.remove id) =>
-        match step d.cfg d.st (.remove id) with
+        match stepV d.cfg d.st (.remove id) with
         | some s => ({ d with st := s, pendingW := none }, true)
         | none => (d, false)
       | some (.add id cr) =>
-        match step d.cfg d.st (.add id) with
+        match stepV d.cfg d.st (.add id) with
         | some s =>
           if s.writer.isSome then ({ d with st := s, pendingW := none, pendingAdd := some (id, cr) }, true)
           else ({ setConsumer { d with st := s } id cr with pendingW := none }, true)
@@ -106,23 +113,28 @@ def cbFuel : Nat := 100000
 def parseMode (m : String) : Option (Option Nat) :=
   if m = "fast" then some none else if m = "gate" then some (some 0) else none
 
-/-- ops: init | add <id> <fast|gate> | remove <id> | put | release <id> <n> | wait | got <id> | last -/
+def cbStepAdd (d : CbDrv) (id m : String) : CbDrv × String :=
+  match parseMode m with
+  | none => (d, "bad-op")
+  | some cr =>
+    if d.pendingW.isSome || d.pendingAdd.isSome then (d, "bad-state") else
+    match stepV d.cfg d.st (.add id) with
+    | none => (settle cbFuel { d with pendingW := some (.add id cr) }, "blocked")
+    | some s =>
+      if s.writer.isSome then (settle cbFuel { d with st := s, pendingAdd := some (id, cr) }, "blocked")
+      else (settle cbFuel (setConsumer { d with st := s } id cr), "ok")
+
+/-- ops: init | add <id> <fast|gate> | adds <id> <fast|gate> | remove <id> | put | release <id> <n> | wait | got <id> | last -/
 def cbStep (d : CbDrv) (f : List String) : CbDrv × String :=
   match f with
-  | ["init"] => ({ cfg := d.cfg }, "ok")
-  | ["add", id, m] =>
-    match parseMode m with
-    | none => (d, "bad-op")
-    | some cr =>
-      if d.pendingW.isSome || d.pendingAdd.isSome then (d, "bad-state") else
-      match step d.cfg d.st (.add id) with
-      | none => (settle cbFuel { d with pendingW := some (.add id cr) }, "blocked")
-      | some s =>
-        if s.writer.isSome then (settle cbFuel { d with st := s, pendingAdd := some (id, cr) }, "blocked")
-        else (settle cbFuel (setConsumer { d with st := s } id cr), "ok")
+  | ["init"] => ({ cfg := { d.cfg with streamIds := [] } }, "ok")
+  | ["adds", id, m] =>
+    -- a registration by a stream handler: `AddStreamCallback` where the tree has it, `AddCallback` otherwise
+    cbStepAdd { d with cfg := { d.cfg with streamIds := id :: d.cfg.streamIds.filter (· != id) } } id m
+  | ["add", id, m] => cbStepAdd { d with cfg := { d.cfg with streamIds := d.cfg.streamIds.filter (· != id) } } id m
   | ["remove", id] =>
     if d.pendingW.isSome || d.pendingAdd.isSome then (d, "bad-state") else
-    match step d.cfg d.st (.remove id) with
+    match stepV d.cfg d.st (.remove id) with
     | none => (settle cbFuel { d with pendingW := some (.remove id) }, "blocked")
     | some s => (settle cbFuel { d with st := s }, "ok")
   | ["put"] =>
@@ -130,7 +142,7 @@ def cbStep (d : CbDrv) (f : List String) : CbDrv × String :=
     let r := d.head + 1
     -- the base Put happens first, whatever the lock does afterwards
     if d.st.writer.isSome || d.pendingW.isSome then (d, "bad-state") else
-    match step d.cfg d.st (.putBegin (streamBeacon true r)) with
+    match stepV d.cfg d.st (.putBegin (streamBeacon true r)) with
     | none => (d, "bad-state")
     | some s =>
       let d' := settle cbFuel { d with st := s, head := r }
@@ -139,6 +151,10 @@ def cbStep (d : CbDrv) (f : List String) : CbDrv × String :=
     match n.toNat? with
     | none => (d, "bad-op")
     | some n =>
+      -- only a gated consumer can be released (the harness refuses the op otherwise)
+      match (d.cons.find? (·.id == id)).bind (·.credits) with
+      | none => (d, "bad-state")
+      | some _ =>
       let d1 := { d with cons := d.cons.map fun x => if x.id == id then { x with credits := x.credits.map (· + n) } else x }
       (settle cbFuel d1, "ok")
   | ["wait"] =>
